@@ -52,7 +52,7 @@ mpz_class draw_rep(Words& w)
     else {
         auto r = range_of<Rep>();
         int digits = int(mpz_sizeinbase(r.second.get_mpz_t(), 2));
-        mpz_class v = draw_mpz(w, digits, r.first < 0);
+        mpz_class v = draw_mpz(w, digits, r.first < 0, r.first == -r.second - 1);
         if (v > r.second) v = r.second;
         if (v < r.first) v = r.first;
         return v;
